@@ -40,6 +40,38 @@ pub fn emit(out: &mut impl Write, c: &Case) {
     writeln!(out, "{}\t{}\t{}\t{}", j(&c.input), j(&c.output), c.sig, c.oracle).unwrap();
 }
 
+/// Half of the cases (chosen by the input) consume hand-held subscriptions the way a `select!` loop does: a pending
+/// `recv()` future is dropped and a new one created after the other tasks ran (see [recv_selectlike]).
+pub static SELECTLIKE: std::sync::atomic::AtomicBool = std::sync::atomic::AtomicBool::new(false);
+
+fn set_selectlike(inp: &[u128]) {
+    let h = inp.iter().fold(0xcbf29ce484222325u64, |a, x| (a ^ *x as u64).wrapping_mul(0x100000001b3));
+    SELECTLIKE.store((h >> 17) & 1 == 1, std::sync::atomic::Ordering::SeqCst);
+}
+
+/// `sub.recv()` up to quiescence.  In select-like cases the future is first polled once and dropped while pending
+/// (cancelled) up to three times, the other tasks running in between; then, as always, it is awaited until the
+/// runtime is idle (a 1 ns timeout under the paused clock).  A cancel-safe `recv` gives the same events either way.
+#[macro_export]
+macro_rules! recv_selectlike {
+    ($sub:expr) => {{
+        let mut early = None;
+        if $crate::SELECTLIKE.load(std::sync::atomic::Ordering::SeqCst) {
+            for _ in 0..3 {
+                if let Some(r) = futures::FutureExt::now_or_never($sub.recv()) {
+                    early = Some(r);
+                    break;
+                }
+                tokio::task::yield_now().await;
+            }
+        }
+        match early {
+            Some(r) => Ok(r),
+            None => tokio::time::timeout(std::time::Duration::from_nanos(1), $sub.recv()).await,
+        }
+    }};
+}
+
 /// Common driver: either replays the inputs of a case file (`--replay <file>`, lines starting with
 /// the component number) or generates `count` case groups from the seed; runs the implementation
 /// on each input and prints input, output, signature and oracle verdict.
@@ -61,6 +93,7 @@ pub fn drive(
         for inp in inputs {
             out.flush().unwrap();
             watchdog_arm(comp, &inp);
+            set_selectlike(&inp);
             let (o, sig, oracle) = exec(&inp);
             watchdog_disarm();
             let mut input = vec![comp];
@@ -75,6 +108,7 @@ pub fn drive(
         for inp in gen(&mut rr, i) {
             out.flush().unwrap();
             watchdog_arm(comp, &inp);
+            set_selectlike(&inp);
             let (o, sig, oracle) = exec(&inp);
             watchdog_disarm();
             let mut input = vec![comp];
@@ -100,6 +134,7 @@ pub fn drive_accept(
         let inp: Vec<u128> = inp.iter().copied().take_while(|x| *x != OBS_SEP).collect();
         out.flush().unwrap();
         watchdog_arm(comp, &inp);
+        set_selectlike(&inp);
         let (obs, o, sig, oracle) = exec(&inp);
         watchdog_disarm();
         let mut input = vec![comp];
